@@ -162,15 +162,17 @@ Qed.
 
 (* ================= decode: the date ================= *)
 
-(* float model of parseDVBTime's date = integer model, all 65536 MJD words *)
-Lemma decode_float_sweep :
-  all_range (fun mjd => triple_eqb (DvbFloat.mjd_to_ymd_float mjd) (dvb_ymd mjd)) 0 65535 = true.
+(* float model of parseDVBTime's date = integer model, on the 50457 MJD values of the property's range
+   (the other 15079 words, 0..15078, are in Proofs/DvbSupplementProofs.v, outside the cone of Props/C15.v) *)
+Definition decode_float_ok (mjd : Z) : bool := triple_eqb (DvbFloat.mjd_to_ymd_float mjd) (dvb_ymd mjd).
+
+Lemma decode_float_sweep : all_range decode_float_ok mjd_lo mjd_hi = true.
 Proof. vm_cast_no_check (eq_refl true). Qed.
 
-Lemma decode_float_int mjd : 0 <= mjd <= 65535 -> DvbFloat.mjd_to_ymd_float mjd = dvb_ymd mjd.
+Lemma decode_float_int mjd : mjd_lo <= mjd <= mjd_hi -> DvbFloat.mjd_to_ymd_float mjd = dvb_ymd mjd.
 Proof. intros H. apply triple_eqb_eq, (all_range_spec _ _ _ decode_float_sweep mjd H). Qed.
 
-Lemma decode_unix_float_int mjd : 0 <= mjd <= 65535 -> DvbFloat.dvb_date_unix_float mjd = dvb_date_unix mjd.
+Lemma decode_unix_float_int mjd : mjd_lo <= mjd <= mjd_hi -> DvbFloat.dvb_date_unix_float mjd = dvb_date_unix mjd.
 Proof. intros H. unfold DvbFloat.dvb_date_unix_float, dvb_date_unix. rewrite decode_float_int by exact H. reflexivity. Qed.
 
 (* on the range of the property: (y, m, d) is the calendar date of the MJD (no normalisation by
@@ -300,7 +302,7 @@ Proof.
 Qed.
 
 (* every second of a day (what writeDVBTime needs).  The same three sweeps for all durations below
-   100 h are in Proofs/DvbDuration100hProofs.v, outside the cone of Props/C15.v (coqchk, which does not
+   100 h are in Proofs/DvbSupplementProofs.v, outside the cone of Props/C15.v (coqchk, which does not
    use the VM, would need an extra quarter of an hour for them). *)
 Lemma dur_float_hours_sweep : split_sweep ns_hour 3599 23 = true.
 Proof. vm_cast_no_check (eq_refl true). Qed.
